@@ -9,7 +9,7 @@ from ..runner import Suite
 
 DOCUMENTED_PERMANENT = {-32700, -32600, -32601, -32602, -32003, -32005, -32006, -32007, -32008, -32000}
 CODES = sorted(DOCUMENTED_PERMANENT) + [-32603, -32001, -32002, -32004, -32099, -32050, -1, 0, 1, 404, 2**31, -(2**63), 2**64 - 1]
-BOOL_HELPERS = {"ping", "resources/subscribe", "resources/unsubscribe"}
+BOOL_HELPERS = {"send_ping", "send_resources_subscribe", "send_resources_unsubscribe"}
 
 
 def err_event(code, shape, k=0):
@@ -64,6 +64,11 @@ class ErrorPath(Suite):
         return out
 
     def impl_batch(self, cases):
+        from .. import helpers
+        _, undrivable = helpers.discover()
+        if undrivable and not getattr(self, "_reported", False):
+            self._reported = True
+            self._undrivable = undrivable
         obs = [H.run_case(c) for c in cases]
         self._last = {id(c): o for c, o in zip(cases, obs)}
         return obs
@@ -78,6 +83,9 @@ class ErrorPath(Suite):
         return H.model_shape(out)
 
     def compare(self, case, o, m):
+        if getattr(self, "_undrivable", None):
+            u, self._undrivable = self._undrivable, None
+            return "request helpers the harness cannot drive (new required parameter?): " + ", ".join(u)
         a = H.impl_shape(case, o)
         h = case.get("helper")
         if h:
